@@ -10,19 +10,19 @@ CFG = dict(
     find_bad_from="find_bad_from",
     go_tags="sv",
     rigs=[dict(test="TestC12", timeout_quick=300, timeout_thorough=1500)],
-    reason_text={"1": "the real server's observation differs from every outcome of the Gallina model (Model/Server.v, all orders of internal rules), or parseRawMethod / the method table differs from Model/Method.v",
+    reason_text={"7": "the server process died in this scenario (panic)", "8": "the connection never became quiescent again in this scenario: a goroutine waits for ever for a lock (wedge)", "9": "isolation: a stream handler received a message that was not delivered for its id after its own opening envelope (or twice, or out of order)","1": "the real server's observation differs from every outcome of the Gallina model (Model/Server.v, all orders of internal rules), or parseRawMethod / the method table differs from Model/Method.v",
                  "2": "dispatch: a handler was invoked for an envelope that must not start one, not invoked for one that must, invoked twice, or with another payload / metadata / method / id",
                  "3": "reset: a body (or undecodable open) for an unknown stream id was not answered by exactly one RST_STREAM for that id with source and destination swapped, or a reset was written where none is due",
                  "4": "probe / unary reply: a valid unary request was not answered with the handler's reply under the same id",
                  "5": "the server wrote an envelope of its own that the protocol does not call for",
                  "6": "the read loop was blocked or the connection ended in a conversation without faults whose handlers consume their input"},
     rule="lock-step in synctest bubbles (real goat.Server.Serve on a scripted transport, handler bodies gated by the schedule; one action, "
-         "synctest.Wait, snapshot): ALL envelope sequences of length <= 2 (thorough <= 3) over an alphabet of 27 envelope shapes (each field "
+         "synctest.Wait, snapshot): ALL envelope sequences of length <= 3 (quick and thorough: 22.8 thousand; thorough adds a seeded sample of 20000 of the 6.1*10^5 sequences of length 4 - all of them do not fit the thorough time box) over an alphabet of 28 envelope shapes (each field "
          "present / absent / undecodable, 2 stream ids, unary and stream methods, wrong destination, 4 kinds of bad method string, unknown "
          "service / method, body / trailer / reset / other-type reset for unknown and open ids, duplicate opens, undecodable bodies), each "
          "followed by a valid unary probe whose reply must arrive; seeded random sequences of length 4..40; field-level mutations of valid "
-         "conversations; handlers that abandon 0..4 unconsumed messages; random walks with arbitrary handler behaviour followed by the "
-         "probe; parseRawMethod against Model/Method.v on 230 strings. A process death or a wedge is a violation by itself.",
+         "conversations; handlers that abandon 0..4 unconsumed messages; handlers that return with 0..2 leftovers (message, half-close, zero-length message, late message) followed by a new stream on the same / another id whose handler must see only its own messages; random walks with arbitrary handler behaviour followed by the "
+         "probe; parseRawMethod against Model/Method.v on 230 strings. The rig runs as 12 parallel child processes; a process death or a wedge (real-time watchdog) is re-run alone and, if it persists, recorded as a failing case (reasons 7 / 8).",
     assumptions=["payloads, metadata, names are opaque to the server connection (tokens)",
                  "the transport returns queued envelopes in order, then its error; honours its context in Read and in a blocked Write",
                  "quiescence = testing/synctest's durable blocking; goroutine roles are read from runtime.Stack frames"],
